@@ -125,7 +125,18 @@ fn render_other_format(spec: &Spec, mode: u16) -> Result<Vec<u32>, Failure> {
             }
         }
         assert!(entries.len() <= 255);
-        s.palette = Some(NewPalette { first: 0, entries });
+        // two probes in three use a palette that does not start at index 0 (the indices below it stay undefined and
+        // unused): the colours a pixel index stands for must not depend on where the palette starts
+        let room = 255 - entries.len() as u32;
+        let first = match (spec.back.len() as u32 + spec.lop as u32 + spec.cop as u32 * 3 + spec.mode as u32) % 3 {
+            0 => 0,
+            1 => room,
+            _ => room.min(1 + (spec.back[0] % 97)),
+        };
+        for v in pal.values_mut() {
+            *v += first as u8;
+        }
+        s.palette = Some(NewPalette { first, entries });
         s.transparent = 255;
     }
     s.layers.push(Layer { flags: LF_VISIBLE, kind: LayerKind::Image, level: 0, blend: 0, opacity: 255, name: "backdrop".into(), user_data: None });
